@@ -1,5 +1,242 @@
-"""C02, API part: retry policy chosen per public command (filled in once SimConsole exists)."""
+"""C02, API part: the retry policy chosen per command (DESIGN §6 C02, second part).
+
+Every public command of both generations, and the internal senders with the accumulate-on-repeat
+arguments the public enums do not expose, under fault scripts.  Attempts are counted on the
+simulated wire through the packet id of the command's header chunk."""
+from __future__ import annotations
+
+import datetime
+
+from .. import console, explorer
+from ..ref.at4 import KEEP
+from ..vloop import EPS
+from . import cmdcommon as cc
+
+SCRIPTS = ["fail-1", "fail-2", "fail-3", "down-0.5", "down-1+eps", "down-31"]
+
+
+def commands(gen):
+    """[(label, fn(world) -> coroutine function, internal?)]"""
+    import pyairtouch as A
+    out = []
+
+    def ac(w, i=0):
+        return sorted(w.at.air_conditioners, key=lambda a: a.ac_id)[i]
+
+    def zone(w, i=0):
+        return sorted((z for a in w.at.air_conditioners for z in a.zones), key=lambda z: z.zone_id)[i]
+    for pc in A.AcPowerControl:
+        out.append((f"ac.set_power({pc.name})", lambda w, pc=pc: (lambda: ac(w).set_power(pc)), False))
+    for m in A.AcMode:
+        for on in (False, True):
+            out.append((f"ac.set_mode({m.name}, power_on={on})", lambda w, m=m, on=on: (lambda: ac(w).set_mode(m, power_on=on)), False))
+    for f in A.AcFanSpeed:
+        out.append((f"ac.set_fan_speed({f.name})", lambda w, f=f: (lambda: ac(w).set_fan_speed(f)), False))
+    out.append(("ac.set_target_temperature(23)", lambda w: (lambda: ac(w).set_target_temperature(23)), False))
+    for tt in A.AcTimerType:
+        out.append((f"ac.set_quick_timer({tt.name}, 07:30)", lambda w, tt=tt: (lambda: ac(w).set_quick_timer(tt, datetime.time(7, 30))), False))
+        out.append((f"ac.set_quick_timer({tt.name}, 1h)", lambda w, tt=tt: (lambda: ac(w).set_quick_timer(tt, datetime.timedelta(hours=1))), False))
+        out.append((f"ac.clear_quick_timer({tt.name})", lambda w, tt=tt: (lambda: ac(w).clear_quick_timer(tt)), False))
+    for ps in A.ZonePowerState:
+        out.append((f"zone.set_power({ps.name})", lambda w, ps=ps: (lambda: zone(w).set_power(ps)), False))
+    out.append(("zone.set_target_temperature(21)", lambda w: (lambda: zone(w).set_target_temperature(21)), False))
+    out.append(("zone.set_damper_percentage(40)", lambda w: (lambda: zone(w).set_damper_percentage(40)), False))
+    out.append(("check_for_updates()", lambda w: w.at.check_for_updates, False))
+    # anchored internal senders with accumulate-on-repeat arguments
+    if gen == 4:
+        import pyairtouch.at4.comms.x2A_group_ctrl as gc
+        import pyairtouch.at4.comms.x2C_ac_ctrl as acc
+        out += [
+            ("ac._send_ac_control_message(set_point +1)", lambda w: (lambda: ac(w)._send_ac_control_message(set_point_control=acc.AcIncreaseDecrease.INCREASE)), True),
+            ("ac._send_ac_control_message(set_point -1)", lambda w: (lambda: ac(w)._send_ac_control_message(set_point_control=acc.AcIncreaseDecrease.DECREASE)), True),
+            ("zone._send_group_control_message(method CHANGE)", lambda w: (lambda: zone(w)._send_group_control_message(control_method=gc.GroupControlMethod.CHANGE)), True),
+            ("zone._send_group_control_message(setting +1)", lambda w: (lambda: zone(w)._send_group_control_message(setting=gc.GroupIncreaseDecrease.INCREASE)), True),
+            ("zone._send_group_control_message(setting -1)", lambda w: (lambda: zone(w)._send_group_control_message(setting=gc.GroupIncreaseDecrease.DECREASE)), True),
+            ("zone._send_group_control_message(power next state)", lambda w: (lambda: zone(w)._send_group_control_message(power=gc.GroupPowerControl.TOGGLE)), True),
+        ]
+    else:
+        import pyairtouch.at5.comms.xC020_zone_ctrl as zc
+        out += [
+            ("zone._send_zone_control_message(power toggle)", lambda w: (lambda: zone(w)._send_zone_control_message(zone_power=zc.ZonePowerControl.TOGGLE)), True),
+            ("zone._send_zone_control_message(setting +1)", lambda w: (lambda: zone(w)._send_zone_control_message(zone_setting=zc.ZoneIncreaseDecrease.INCREASE)), True),
+            ("zone._send_zone_control_message(setting -1)", lambda w: (lambda: zone(w)._send_zone_control_message(zone_setting=zc.ZoneIncreaseDecrease.DECREASE)), True),
+        ]
+    return out
+
+
+def classify(gen, kind, r):
+    """From the reference reading of the frame: does repeating this command accumulate?"""
+    if kind == "ac-control":
+        return r["power"] == "toggle" or r["setpoint_ctl"] in ("inc", "dec")
+    if kind == "zone-control":
+        return r["power"] in ("toggle", "next") or r["setting"] in ("inc", "dec") or r["method"] == "change"
+    return False
+
+
+def header_chunks(w, i0):
+    hl = 8 if w.gen == 4 else 20
+    off = 4 if w.gen == 4 else 16
+    out = []
+    for e in w.net.log[i0:]:
+        if e[1] in ("write", "write_fail", "write_after_loss") and len(e[3]) == hl and e[3][:2] == b"\x55\x55":
+            out.append((e[0], e[2], e[1], e[3][off]))
+    return out
+
+
+def world(gen):
+    inst = console.default_installation(gen, 1, (2,))
+    st = console.default_state(inst)
+    return cc.initialised(gen, inst, st)
+
+
+def run_command(job):
+    gen, idx = job
+    label, mk, internal = commands(gen)[idx]
+    bad = []
+    n = 0
+    # dry run without faults: what does the frame mean?
+    w = world(gen)
+    rec, frames = cc.issue(w, mk(w))
+    if rec["status"] != "returned":
+        return n, bad            # not supported on this generation (ValueError): nothing to retry
+    cmds = [f for f in frames if f[2] != "req-error"]
+    if len(cmds) != 1:
+        return n, [(f"at{gen}:api:{label}:dry-run", f"{label}: {len(cmds)} frames without any fault")]
+    kind, reading = cc.read_command(gen, cmds[0][3])
+    accumulate = classify(gen, kind, reading)
+    is_request = kind in ("version-request", "status-request")
+    for script in SCRIPTS:
+        n += 1
+        w = world(gen)
+        L = w.loop
+        t0 = L.time()
+        i0 = len(w.net.log)
+        fails_left = [0]
+        if script.startswith("fail"):
+            nf = int(script.split("-")[1])
+            fails_left[0] = nf - 1
+            w.net.live()[-1].fail_after = 0
+            orig = w.net.on_open
+
+            def arm(t, orig=orig):
+                orig(t)
+                if fails_left[0] > 0:
+                    fails_left[0] -= 1
+                    t.fail_after = 0
+            w.net.on_open = arm
+            rec = w.call(mk(w), label)
+            L.run_until(t0 + 40.0)
+        else:
+            d = {"down-0.5": 0.5, "down-1+eps": 1.0 + EPS, "down-31": 31.0}[script]
+            w.net.auto = None
+            w.net.live()[-1].peer_eof()
+            L.settle()
+            i0 = len(w.net.log)
+            t0 = L.time()
+            rec = w.call(mk(w), label)
+            L.settle()
+            L.run_until(t0 + d)
+            w.net.auto = "accept"
+            w.net.resolve_all(True)
+            L.run_until(t0 + 40.0)
+        chunks = header_chunks(w, i0)
+        if not chunks:
+            wire = []
+            pid0 = None
+        else:
+            pid0 = chunks[0][3]
+            wire = [c for c in chunks if c[3] == pid0 and c[2] in ("write", "write_fail")]
+        tag = f"at{gen} {label} under {script}"
+        limit = 1 if accumulate else 3
+        if script.startswith("down"):
+            # while the link is down the first header chunk after submit belongs to whatever is sent first on
+            # the new connection; identify the command by its payload instead
+            sent = [r for r in w.console.requests if r[3] is not None and r[0] >= t0 and r[3].typ == cmds[0][3].typ and r[3].data == cmds[0][3].data]
+            nwire = len(sent)
+            times = [r[0] for r in sent]
+            life = 1.0 if False else 30.0
+            d = {"down-0.5": 0.5, "down-1+eps": 1.0 + EPS, "down-31": 31.0}[script]
+            if nwire > limit:
+                bad.append((f"at{gen}:api:too-many:{label}", f"{tag}: transmitted {nwire} times"))
+            if any(t >= t0 + 30.0 for t in times):
+                bad.append((f"at{gen}:api:after-expiry:{label}", f"{tag}: transmitted at {times} (submitted at {t0})"))
+            if d < 30.0 and nwire == 0 and not is_request and rec["status"] == "returned":
+                bad.append((f"at{gen}:api:lost:{label}", f"{tag}: never transmitted although the link came back after {d}s"))
+            continue
+        if len(wire) > limit:
+            bad.append((f"at{gen}:api:too-many:{label}",
+                        f"{tag}: reference reading {reading} {'accumulates on repetition' if accumulate else ''}; "
+                        f"put on the wire {len(wire)} times: {[(c[0], c[1], c[2]) for c in wire]}"))
+        if any(c[0] >= t0 + 30.0 for c in wire):
+            bad.append((f"at{gen}:api:after-expiry:{label}", f"{tag}: attempt at or after expiry: {wire}"))
+        nf = int(script.split("-")[1])
+        if not accumulate and not is_request and nf <= 2:
+            # a transient failure must not lose the command: it is re-sent first on the next connection
+            ok = [c for c in wire if c[2] == "write"]
+            if not ok:
+                bad.append((f"at{gen}:api:lost:{label}", f"{tag}: idempotent command never made it after {nf} failed write(s)"))
+            else:
+                first_on_conn = [c for c in chunks if c[1] == ok[0][1]][0]
+                if first_on_conn[3] != pid0:
+                    bad.append((f"at{gen}:api:retry-not-first:{label}", f"{tag}: first frame on connection {ok[0][1]} is not the retried command"))
+    return n, bad
+
+
+def run_requests(gen):
+    """Handshake / heartbeat / refresh requests are discarded unless a connection exists within one second."""
+    bad = []
+    n = 0
+    for d in (0.5, 1.0 - EPS, 1.0 + EPS, 5.0):
+        # refresh requests: issued on the connected notification -> connection exists by construction.
+        # heartbeat request submitted while the link is (unknown to the client) dead: first write fails
+        w = world(gen)
+        L = w.loop
+        n += 1
+        L.run_until(299.0)
+        w.net.auto = None
+        t = w.net.live()[-1]
+        t.fail_after = 0                       # half-open link: the heartbeat write at t=300 fails
+        L.run_until(300.0 + d)
+        w.net.auto = "accept"
+        w.net.resolve_all(True)
+        L.run_until(340.0)
+        vers = [r[0] for r in w.console.requests if r[2] == "req-version" and r[0] >= 299.0]
+        late = [tm for tm in vers if tm >= 301.0 and abs((tm % 300.0)) > 1e-9]
+        if late:
+            bad.append((f"at{gen}:api:request-after-1s", f"at{gen}: heartbeat request submitted at t=300 on a dead link was transmitted at {late} "
+                        f"(link back after {d}s)"))
+        if d < 1.0 and False:
+            pass
+    return n, bad
+
+
+def job(args):
+    kind, gen, idx = args
+    if kind == "cmd":
+        return run_command((gen, idx))
+    return run_requests(gen)
 
 
 def run_part(chk, tier):
-    chk.notes.append("API part not built yet")
+    jobs = []
+    for gen in (4, 5):
+        for i in range(len(commands(gen))):
+            jobs.append(("cmd", gen, i))
+        jobs.append(("req", gen, 0))
+    res = explorer.pool().map(job, jobs, chunksize=2)
+    total = 0
+    for j, (n, bad) in zip(jobs, res):
+        total += n
+        for sig, msg in bad:
+            chk.violation(sig, msg, {"kind": "input", "module": "pvmc.props.c02api", "job": list(j)})
+    chk.counters["executions"] += total
+    chk.counters["states"] += total
+    chk.counters["transitions"] += total
+    chk.cov["api_part"] = {"commands_at4": len(commands(4)), "commands_at5": len(commands(5)), "fault_scripts": SCRIPTS,
+                           "executions": total}
+    chk.samples.append({"api_command": "at4 zone._send_group_control_message(power next state)", "script": "fail-2"})
+
+
+def replay_input(rp):
+    n, bad = job(tuple(rp["job"]))
+    return bad[0][1] if bad else None
